@@ -31,7 +31,7 @@ CASE_TIMEOUT_S = 900
 STUBS = []
 PROBES = ['eviction', 'absent_key_lookup', 'absent_then_evict', 'idx_path', 'raw_path', 'rewrite',
           'cache_size_1', 'minus_strand_tx', 'sec_tx', 'demo_multi_isoform', 'invalid_protein_as_noncoding',
-          'unversioned_lookup', 'non_ascii_gtf', 'corpus_real_reference', 'ensembl_dialect']
+          'unversioned_lookup', 'non_ascii_gtf', 'corpus_real_reference', 'ensembl_dialect', 'gencode_extras']
 RULE = ('case = generated annotation (6-14 genes, both strands, Sec, NF tags) or the multi-isoform demo GTF; '
         'history = Hypothesis rule sequence (<=40 steps): lookups of present/absent keys in both pointer '
         'dicts, contains/len/iter, coordinate and sequence API calls, unversioned gene lookup, write->reparse, '
@@ -647,6 +647,62 @@ def ensembl_dialect(rng, gtf_text):
     return '\n'.join(out) + '\n'
 
 
+def gencode_extras(rng, gtf_text):
+    """What a GENCODE GTF has and the generated ones lack: several isoforms per gene (here: a second transcript with
+    the same structure under another id, non-coding because the proteome does not list it) and start_codon /
+    stop_codon records.  Only adds records; the existing models are unchanged."""
+    lines = gtf_text.splitlines()
+    blocks, cur = [], None           # [gene line or None, [transcript blocks]]
+    out = []
+    tx_block = []
+
+    def emit(block):
+        if not block:
+            return
+        f0 = block[0].split('\t')
+        strand = f0[6]
+        cds = sorted((int(l.split('\t')[3]), int(l.split('\t')[4])) for l in block if l.split('\t')[2] == 'CDS')
+        extra = []
+        if cds and rng.random() < 0.6:
+            attrs = f0[8]
+            attrs = attrs.replace(' is_protein_coding true;', '').replace(' is_protein_coding false;', '')
+            if strand == '+' and cds[0][1] - cds[0][0] >= 2:
+                extra.append('\t'.join(f0[:2] + ['start_codon', str(cds[0][0]), str(cds[0][0] + 2)] + f0[5:8] + [attrs]))
+            elif strand == '-' and cds[-1][1] - cds[-1][0] >= 2:
+                extra.append('\t'.join(f0[:2] + ['start_codon', str(cds[-1][1] - 2), str(cds[-1][1])] + f0[5:8] + [attrs]))
+        out.extend(block + extra)
+        if rng.random() < 0.35:
+            # second isoform: same records under a new transcript / protein id
+            tid = None
+            for a in f0[8].split(';'):
+                a = a.strip()
+                if a.startswith('transcript_id '):
+                    tid = a.split(' ', 1)[1].strip('"')
+            if tid:
+                new = tid + 'b' if not tid[-1].isdigit() else tid[:5] + '9' + tid[6:]
+                if new != tid:
+                    out.extend(l.replace(tid, new).replace(tid.replace('FAKET', 'FAKEP'), new.replace('FAKET', 'FAKEP'))
+                               .replace(' is_protein_coding true;', ' is_protein_coding false;') for l in block + extra)
+    for l in lines:
+        if not l or l.startswith('#'):
+            emit(tx_block)
+            tx_block = []
+            out.append(l)
+            continue
+        t = l.split('\t')[2]
+        if t == 'gene':
+            emit(tx_block)
+            tx_block = []
+            out.append(l)
+        elif t == 'transcript':
+            emit(tx_block)
+            tx_block = [l]
+        else:
+            tx_block.append(l)
+    emit(tx_block)
+    return '\n'.join(out) + '\n'
+
+
 def case_texts(seed, idx):
     rng = R.case_rng(seed, ENGINE, idx)
     u = rng.random()
@@ -676,6 +732,8 @@ def case_texts(seed, idx):
             texts = dict(texts, proteome_fa=''.join('>' + r for r in recs))
         if rng.random() < 0.4:
             texts = dict(texts, gtf=add_non_ascii(rng, texts['gtf']), non_ascii=True)
+    if not demo and rng.random() < 0.4:
+        texts = dict(texts, gtf=gencode_extras(rng, texts['gtf']), gencode_extras=True)
     if rng.random() < 0.35:
         texts = dict(texts, gtf=ensembl_dialect(rng, texts['gtf']), ensembl_dialect=True)
     return texts, demo, rng
@@ -735,6 +793,8 @@ def run_case(seed, task, tier):
             probes['non_ascii_gtf'] = probes.get('non_ascii_gtf', 0) + 1
         if texts.get('ensembl_dialect'):
             probes['ensembl_dialect'] = probes.get('ensembl_dialect', 0) + 1
+        if texts.get('gencode_extras'):
+            probes['gencode_extras'] = probes.get('gencode_extras', 0) + 1
     if stats_box:
         out['sample'] = {'case': idx, 'demo': demo, 'n_histories': len(stats_box),
                          'last_history': trace_box[0][:40] if trace_box[0] else None}
